@@ -26,6 +26,14 @@ CORPUS = [
     ("try", [("const", ("int", 1))], [(("one", 1), [("const", ("int", 2))])], [], None),                      # fixed 08f501f
     ("try", [("log", 1, ("const", ("int", 1)))], [(("all",), [])], [], [("log", 2, ("const", ("none",)))]),
     ("try", [("raise", ("const", ("exn", 2)))], [(("one", 1), [("log", 1, ("const", ("int", 3)))])], None, [("log", 2, ("const", ("none",)))]),
+    # E4 derives from BaseException, not Exception: (except [] ...) is Python's bare `except:` and must catch it, a handler
+    # typed with an Exception subclass must not
+    ("try", [("raise", ("const", ("exn", 4)))], [(("all",), [("log", 1, ("const", ("int", 5)))])], None, None),
+    ("try", [("raise", ("const", ("exn", 4)))], [(("one", 1), [("const", ("int", 1))]), (("all",), [("const", ("int", 5))])], None,
+     [("log", 1, ("const", ("none",)))]),
+    ("try", [("try", [("raise", ("const", ("exn", 4)))], [(("many", [0, 1]), [("const", ("int", 1))])], None, [("log", 1, ("const", ("none",)))])],
+     [(("all",), [("log", 2, ("const", ("int", 5)))])], None, None),
+    ("log", 2, ("try", [("log", 1, ("raise", ("const", ("exn", 4))))], [(("one", 4), [("const", ("int", 7))]), (("all",), [("const", ("int", 5))])], None, None)),
 ]
 
 
